@@ -101,7 +101,10 @@ func bit6(b int64) byte {
 // behaves as the null graph.
 func IsValid(g Graph) bool {
 	n := int(numberOf(g))
-	if n < 0 {
+	if n < 0 || n > 4*len(g)+1 {
+		// (n^2-n)/2 bits need at least (n^2-n)/12 bytes, so a
+		// valid encoding has n <= 4*len(g)+1. This also keeps
+		// n*n from overflowing.
 		return false
 	}
 	size := ((n*n-n)/2 + 5) / 6 // ceil(((n*n-n)/2) / 6)
